@@ -126,13 +126,26 @@ CLAIMS["C07"] = {
             "admissible index (stream identity does not depend on them); file layer stubbed; real TOML round trip",
     "technique": TECH,
 }
+CLAIMS["C18"] = {
+    "level": "other",
+    "text": "Partial (validation predicate + initialisation; the TOML re-read fixed point of setup_config is outside). check_config runs "
+            "on configurations with 0..4 symbolic interface values (every order and coincidence), symbolic cap / lambda_-1 / worker "
+            "count, all sh/wf move vectors of length k-1..k+1, engine defined or not: every configuration invalid by the property's list "
+            "raises TOMLConfigError (never another exception); every accepted configuration runs REPEX_state.__init__, "
+            "initiate_ensembles, load_paths on staircase initial paths and the first `workers` picks without error, with a valid "
+            "probability vector, disjoint jobs marked busy.",
+    "design_ref": "DESIGN.md section 3 C18 (H18)",
+    "note": "workers >= 1; initial paths climb through every lower region (hole patterns outside); HRX stubs for rng/file layer; "
+            "rules beyond the property's list (quantis with lambda_-1, gromacs input_path) may reject without alarm",
+    "technique": TECH,
+}
 PENDING = "check not built yet in this revision (see DESIGN.md for the plan); no claim is made"
 NOT_APPLICABLE = {
     "C01": "statistical convergence of a whole stochastic sampler: no bounded symbolic encoding; its algebraic obligations are decided under C02/C04/C09/C10/C11",
     "C08": "quantifies over crash positions in a trace of OS file-system effects and the outcome of TOML/path parsers on truncated trees: not symbolically executable with the installed tools (fault enumeration is a different technique family)",
     "C19": "every clause is a round trip through C-level text/binary codecs (str.format/float, struct, re, genfromtxt): not executable on symbolic data here",
 }
-for _p in ["C12", "C13", "C16", "C17", "C18", "C20"]:
+for _p in ["C12", "C13", "C16", "C17", "C20"]:
     if _p not in CLAIMS:
         NOT_APPLICABLE[_p] = PENDING
 NOTES = ("All checks: exit 0 held within the stated bounds; exit 1 + VIOLATION line only for a counterexample that was replayed "
